@@ -5,7 +5,7 @@ VERIF = os.path.dirname(os.path.dirname(os.path.abspath(__file__)))
 BUILD = os.path.join(VERIF, ".build")
 VENDOR = os.path.join(VERIF, ".vendor")
 EVIDENCE = os.path.join(VERIF, "evidence")
-REPLAYS = os.path.join(VERIF, "replays")
+REPLAYS = os.path.join(VERIF, "replays") if os.path.abspath(os.environ.get("VERIF_REPO", "/repo")) == "/repo" else os.path.join(BUILD, "replays-scratch")
 KNOWN = os.path.join(VERIF, "known_findings.json")
 
 def repo_path():
@@ -63,8 +63,14 @@ def load_known():
         return {"findings": [], "fixed": []}
     return json.load(open(KNOWN))
 
-def write_evidence(pid, tier, level, coverage, assumptions, wall_s, violations):
-    os.makedirs(EVIDENCE, exist_ok=True)
+def write_evidence(pid, tier, level, coverage, assumptions, wall_s, violations, partial=False):
+    # evidence/ is only for complete runs against /repo itself; runs against a scratch tree
+    # (VERIF_REPO=...) or restricted with --only go to .build/evidence-scratch/
+    global EVIDENCE
+    ev_dir = EVIDENCE
+    if repo_path() != "/repo" or partial:
+        ev_dir = os.path.join(BUILD, "evidence-scratch")
+    os.makedirs(ev_dir, exist_ok=True)
     ev = {
         "property_id": pid,
         "tier": tier,
@@ -75,7 +81,7 @@ def write_evidence(pid, tier, level, coverage, assumptions, wall_s, violations):
         "wall_s": round(wall_s, 2),
         "violations": violations,
     }
-    p = os.path.join(EVIDENCE, pid + ".json")
+    p = os.path.join(ev_dir, pid + ".json")
     with open(p, "w") as f:
         json.dump(ev, f, indent=1, sort_keys=False)
     return p
